@@ -3,6 +3,11 @@
 //	header:     Q <nodeSize> <eq>  |  S <nodeSize> <eq>  |  SQ <eq>       eq in {eq, m3, le}
 //	ops (Q,S):  E v -> -     D -> v,t|0,f     P -> v,t|0,f     C v -> t|f     N -> size     Z -> t|f
 //	ops (SQ):   E v -> idx   D -> v,idx|0,-1  P -> v,idx       C v -> idx     N -> size     Z -> t|f     V -> v0,v1,..|-
+//	W (SQ):     aliasing probe of Values(): take Values(), report it, then scribble over the returned slice (every
+//	            cell overwritten with a sentinel, reversed, one element appended into any spare capacity) and keep
+//	            it; result "v0,v1,..|-" + "/" + t|f, the flag saying whether the slice kept by the PREVIOUS probe is
+//	            still exactly what the harness left in it (the queue must not write into a slice it handed out).
+//	            On the model Values returns a value, so W is Values and the flag is always t.
 //	X (all):    representation snapshot through the verif hook (fidelity observable):
 //	            Q: nodeSize,listSize,frontIndex,rearIndex,rearPos;block;block...   (cells separated by blanks,
 //	               rearPos = position of rearNode among the blocks reachable from frontNode, -1 nil, -2 stale)
@@ -51,6 +56,8 @@ type inst struct {
 	q    list.Queue[int]
 	s    list.Stack[int]
 	sq   list.SoftQueue[int]
+	// aliasing probe: the scribbled slice obtained from Values() by the last W, and what it must still hold
+	held, heldWant []int
 }
 
 func mk(head string) (*inst, error) {
@@ -117,6 +124,17 @@ func (in *inst) dump() string {
 	return fmt.Sprintf("%d,%d,%d", f, r, n)
 }
 
+func vals(vs []int) string {
+	if len(vs) == 0 {
+		return "-"
+	}
+	ss := make([]string, len(vs))
+	for i, v := range vs {
+		ss[i] = strconv.Itoa(v)
+	}
+	return strings.Join(ss, ",")
+}
+
 func (in *inst) exec(op string) (res string) {
 	defer func() {
 		if r := recover(); r != nil {
@@ -178,15 +196,24 @@ func (in *inst) exec(op string) (res string) {
 		case "Z":
 			return b(in.sq.IsEmpty())
 		case "V":
+			return vals(in.sq.Values())
+		case "W":
+			intact := len(in.held) == len(in.heldWant)
+			for i := 0; intact && i < len(in.held); i++ {
+				intact = in.held[i] == in.heldWant[i]
+			}
 			vs := in.sq.Values()
-			if len(vs) == 0 {
-				return "-"
+			seen := vals(vs)
+			for i := range vs {
+				vs[i] = -1000 - i
 			}
-			ss := make([]string, len(vs))
-			for i, v := range vs {
-				ss[i] = strconv.Itoa(v)
+			for i, j := 0, len(vs)-1; i < j; i, j = i+1, j-1 {
+				vs[i], vs[j] = vs[j], vs[i]
 			}
-			return strings.Join(ss, ",")
+			vs = append(vs, -4242) // lands in the queue's own spare capacity if the slice is shared
+			in.held = vs
+			in.heldWant = append([]int(nil), vs...)
+			return seen + "/" + b(intact)
 		}
 	}
 	return "BADOP"
@@ -248,7 +275,12 @@ var sizes = []int{1, 2, 3, 4, 5, 64}
 
 // battery: every observer, Contains for every value of 0..maxv.
 func battery(kind string, maxv int) []string {
-	ops := []string{"N", "Z", "P"}
+	var ops []string
+	if kind == "SQ" {
+		// scribble over a Values() result first; every observer below must be unaffected
+		ops = append(ops, "W")
+	}
+	ops = append(ops, "N", "Z", "P")
 	for v := 0; v <= maxv; v++ {
 		ops = append(ops, fmt.Sprintf("C %d", v))
 	}
@@ -505,8 +537,8 @@ func random(r *rng.R, cases, maxOps int) {
 			case 3:
 				ops = append(ops, "N", "Z")
 			case 4:
-				if kind == "SQ" && r.Chance(1, 4) {
-					ops = append(ops, "V")
+				if kind == "SQ" && r.Chance(1, 2) {
+					ops = append(ops, []string{"V", "W"}[r.Intn(2)])
 				}
 			case 5:
 				if ns <= 8 || r.Chance(1, 4) {
@@ -517,6 +549,9 @@ func random(r *rng.R, cases, maxOps int) {
 		ops = append(ops, battery(kind, 4)...)
 		ops = rep(ops, "D", live+1)
 		ops = append(ops, "N", "Z", "P", "C 0", "X")
+		if kind == "SQ" {
+			ops = append(ops, "W", "E 5", "W", "V", "C 5")
+		}
 		runCase(head, ops)
 	}
 }
